@@ -50,6 +50,7 @@ def run(ctx, build):
     # property oracle on the implementation alone: all layouts of one case agree (fixed-order solvers), nothing raises,
     # every returned vector has n_states entries
     total = 0
+    skipped_inexact = 0
     items, meta = [], []
     for ci, c in enumerate(cs):
         base = None
@@ -76,6 +77,15 @@ def run(ctx, build):
             perms = obs[-1].get("perms") if c["solver"] == "savi" else None
             if c["solver"] == "savi" and c.get("shuffle") and perms is None:
                 continue  # hook off: permutation unknown, model cannot be driven
+            if c["solver"] == "savi":
+                # exactness guard re-evaluated for the partition / permutation actually used
+                try:
+                    _, guard = runs.reference(v, perms=perms, devices=d)
+                except (ZeroDivisionError, OverflowError):
+                    continue
+                if not guard["ok"]:
+                    skipped_inexact += 1
+                    continue
             items.append(runs.coq_item(v, r, len(items), devices=d, perms=perms))
             meta.append((v, d))
     if build["model_ok"]:
@@ -94,7 +104,7 @@ def run(ctx, build):
                 "non-trivial = more than one device or a padded last batch",
         "samples": [{"solver": v["solver"], "seed": v["seed"], "nS": v["spec"]["nS"], "mb": mb, "devices": d, "layout(bs,nb,pad)": refsolve.layout(v["spec"]["nS"], mb, d),
                      "zero_is_state": v["spec"]["zero_is_state"]} for (ci, mb, d), (v, r) in list(sorted(results.items()))[:: max(1, len(results) // 6)]][:8],
-        "traces_validated_against_impl": len(items),
+        "traces_validated_against_impl": len(items), "semi_async_runs_outside_exact_regime_skipped": skipped_inexact,
         "device_counts": sorted(by_dev), "no_padding_multi_device_cases": sum(1 for (ci, mb, d), (v, r) in results.items() if _is_npad0(v, mb, d)),
     }
     return {"coverage": cov, "corr_failures": corr, "impl_violations": viols,
